@@ -548,6 +548,12 @@ def judge_c02(x, meta, mscript, attrs, stages, loop_nodes=None, start=0, iterati
             actual_failed = [n for n in meta if x.final.get(n, {}).get('state') == 'failed']
             if not actual_failed:
                 bad.append(('a task exits unrecoverably (%s) but no component ended FAILED' % sorted(failed_nodes), 'C02:no-failed-component'))
+            else:
+                # "the stage containing it": the stage of a component that actually ended failed. A component of an earlier
+                # stage whose task also exited unrecoverably may have been shut down first (a component of a later stage that
+                # was launched early failed and stopped the experiment) - the statement allows "shut down" for it.
+                fstage = min(meta[n]['stage'] for n in actual_failed if n in failed_nodes) if any(
+                    n in failed_nodes for n in actual_failed) else fstage
             outcomes = dict(ran)
             if outcomes.get(fstage) != 'UnexpectedJobFailureError':
                 bad.append(('a task of stage %d exits unrecoverably but run() ended with %s' % (fstage, outcomes.get(fstage)),
